@@ -371,12 +371,12 @@ impl<T: Payload> ThreadCtx<T> {
             Op::ASendDrop(k) => {
                 let h = self.senders.last().unwrap();
                 let mut fut = Box::pin(h.asy().send(made.take().unwrap()));
-                let cell = WakeCell::new(9, None);
-                let w = waker_of(&cell);
+                // a different waker on every poll: an executor may legally do that
+                let ws = [waker_of(&self.wakers[0]), waker_of(&self.wakers[1])];
                 let mut out = Res::Cancelled(None);
                 for i in 0..k {
                     *polls += 1;
-                    if let Poll::Ready(r) = poll_once(fut.as_mut(), &w) {
+                    if let Poll::Ready(r) = poll_once(fut.as_mut(), &ws[i as usize % 2]) {
                         out = match r {
                             Ok(()) => Res::Ok,
                             Err(e) => se(e),
@@ -420,12 +420,11 @@ impl<T: Payload> ThreadCtx<T> {
             Op::ARecvDrop(k) => {
                 let h = self.receivers.last().unwrap();
                 let mut fut = Box::pin(h.asy().recv());
-                let cell = WakeCell::new(9, None);
-                let w = waker_of(&cell);
+                let ws = [waker_of(&self.wakers[0]), waker_of(&self.wakers[1])];
                 let mut out = Res::Cancelled(None);
                 for i in 0..k {
                     *polls += 1;
-                    if let Poll::Ready(r) = poll_once(fut.as_mut(), &w) {
+                    if let Poll::Ready(r) = poll_once(fut.as_mut(), &ws[i as usize % 2]) {
                         out = match r {
                             Ok(v) => Self::recvd(v),
                             Err(e) => re(e),
